@@ -71,6 +71,19 @@ def rules(P, R, prefix="C12"):
                             thr = (a, l, r)
                             break
             if thr is None:
+                # the gate may be spelled as an early `continue`/`break` on the negated test: take the (only) comparison of a
+                # local with quorum_threshold() in this function; the path condition of the send must still imply it
+                cands = []
+                for a in f.nodes():
+                    if a["k"] == "if" and a["c"]["k"] == "bin" and a["c"]["op"] in (">=", "<=", ">", "<"):
+                        c = a["c"]
+                        for l, r in ((c["l"], c["r"]), (c["r"], c["l"])):
+                            ro = ctx.origin_node(r)
+                            if ro["k"] == "mcall" and MCOMM + "::quorum_threshold" in callee_paths(ro) and l["k"] == "var":
+                                cands.append((a, l, ro))
+                if len(cands) == 1:
+                    thr = cands[0]
+            if thr is None:
                 R.fail(prefix + ".Q1", key(f, "send gated by the quorum threshold" + tag, i), n["sp"],
                        "channel send in the QuorumWaiter is not inside `if <acc> >= committee.quorum_threshold()` (path condition %s)" % show(pc))
                 continue
